@@ -1,5 +1,6 @@
 import SkgVerif.Lemmas.PermInv
 import SkgVerif.Gen.Source
+import SkgVerif.Props.Transcribed.C16
 /-!
 # C16 — cross-variograms use products of paired differences; the table is symmetric
 -/
